@@ -110,13 +110,22 @@ def onBorder : List Nat → List Int → Bool
   | d :: ds, p :: ps => p == 0 || p == (d : Int) - 1 || onBorder ds ps
   | _, _ => false
 
+/-- availability before seeding: the background pixels -/
+def chAvail0 (ref : Img Int) : Array Bool := (ref.data.toList.map (· == 0)).toArray
+
+/-- the seeds: background pixels on the border, in scan order -/
+def chSeeds (ref : Img Int) : List (List Int) :=
+  (allPos ref.shape).filter fun p => onBorder ref.shape p && ref.getD p 1 == 0
+
+/-- seeding takes the seeds -/
+def chAvail1 (ref : Img Int) : Array Bool :=
+  (chSeeds ref).foldl (fun a p => a.setIfInBounds (ravelI ref.shape p) false) (chAvail0 ref)
+
 /-- model of `close_holes`: background border pixels are seeded (taken), the flood takes every
-    background pixel reachable from them, the result is the complement of what was taken. -/
+    background pixel reachable from them, the result is the complement of what was taken.
+    (Fuel: one pop per taken pixel, at most `size` takes after the seeds.) -/
 def closeHoles (ref : Img Int) (nb : List (List Int)) : Array Bool :=
-  let avail0 : Array Bool := (ref.data.toList.map (· == 0)).toArray
-  let seeds := (allPos ref.shape).filter fun p => onBorder ref.shape p && ref.getD p 1 == 0
-  let avail1 := seeds.foldl (fun a p => a.setIfInBounds (ravelI ref.shape p) false) avail0
-  let avail := flood ref.shape nb (ref.size + 1) avail1 seeds.reverse
+  let avail := flood ref.shape nb (ref.size + (chSeeds ref).length + 1) (chAvail1 ref) (chSeeds ref).reverse
   -- taken = background ∧ ¬ still available ; result = ¬ taken
   ((List.range ref.size).map fun i => ref.data.getD i 0 != 0 || avail.getD i false).toArray
 
